@@ -37,13 +37,15 @@
  *        with start_seq_num = the value last given to the callback (else the configured start)
  *        -> per op  <hexpiv|->/<hexsaved|->
  *
- *   rpe <Wcfg> <b12> <con> <nreq> <replay>
+ *   rpe <Wcfg> <b12> <con> <nreq> <replay> [<ssn_freq> <restart_every>]
  *        whole exchange through the public client API: <nreq> times coap_send() of GET /r on an
  *        OSCORE client session; every datagram either side hands to coap_socket_send is carried
  *        to the other side's coap_handle_dgram until nothing is in flight (Appendix B.1.2: the
  *        4.01 + Echo challenge and the client's automatic retransmission included).
  *        -> per client datagram  <g|e><hexpiv>:<verdict>,<last_seq>,<window>,<initial>
  *           (e = sent by the client while it was processing a datagram from the server;
+ *           restart_every = k > 0: before request k, 2k, .. the client context is destroyed and
+ *           a new one created with start_seq_num = the value last given to save_seq_num_func;
  *           replay & 1: after every request all client datagrams recorded so far are delivered
  *           again, tag r; replay & 2: before that, each with its last byte changed, tag f), then
  *           " | handler=<n> responses=<n> ok=<number of 2.05> spivdup=<server Partial IVs seen twice on the wire> codes=<list, may be cut>"
@@ -558,12 +560,16 @@ static int pump(int record, char tag) {
 
 static void cmd_rpe(void) {
   client_t c = {0};
-  int b12, con, nreq, replay;
+  int b12, con, nreq, replay, restart_every = 0;
+  char extra[64];
+  uint64_t stored = 0;
   if (vntok < 6) { printf("BAD-CASE\n"); return; }
   b12 = atoi(vtok[2]);
   con = atoi(vtok[3]);
   nreq = atoi(vtok[4]);
   replay = atoi(vtok[5]);
+  snprintf(extra, sizeof(extra), "ssn_freq,integer,%s\n", vntok > 6 ? vtok[6] : "1");
+  if (vntok > 7) restart_every = atoi(vtok[7]);
   resp_count = resp_205 = 0;
   resp_codes[0] = 0;
   spiv_list[0] = 0;
@@ -571,15 +577,24 @@ static void cmd_rpe(void) {
   nrec = 0;
   pump_client = &c;
   pump_first = 1;
-  if (!server_up(vtok[1], b12, 1) || !client_up(&c, SECRET_A, "", NULL, 0)) {
+  saved_flag = 0;
+  if (!server_up(vtok[1], b12, 1) || !client_up(&c, SECRET_A, extra, save_cb, 0)) {
     printf("SETUP-FAILED\n");
     goto done;
   }
   coap_register_response_handler(c.ctx, hnd_resp);
   for (int q = 0; q < nreq; q++) {
-    coap_pdu_t *pdu = coap_new_pdu(con ? COAP_MESSAGE_CON : COAP_MESSAGE_NON,
-                                   COAP_REQUEST_CODE_GET, c.sess);
+    coap_pdu_t *pdu;
     uint8_t t[2] = { 0x70, (uint8_t)q };
+    if (restart_every && q && q % restart_every == 0) {
+      /* the client process dies and comes back with what it had put on stable storage */
+      if (saved_flag) stored = saved_val;
+      client_down(&c);
+      ncap = 0;
+      if (!client_up(&c, SECRET_A, extra, save_cb, stored)) { printf(" SETUP-FAILED\n"); goto done; }
+      coap_register_response_handler(c.ctx, hnd_resp);
+    }
+    pdu = coap_new_pdu(con ? COAP_MESSAGE_CON : COAP_MESSAGE_NON, COAP_REQUEST_CODE_GET, c.sess);
     if (!pdu) break;
     coap_add_token(pdu, 2, t);
     coap_add_option(pdu, COAP_OPTION_URI_PATH, 1, (const uint8_t *)"r");
